@@ -160,3 +160,28 @@ def build(repo):
                         'a numerically zero direction gives no step:: implies(DOT(g, g) < 1e-28, result == 0)'])
     D.verify_list = ['ball_step', 'model_value', 'Controller.trust_region_step', 'Controller.evaluate_criticality_measure', 'dykstra', 'pball', 'ctrsbox_pgd', 'ctrsbox_sfista', 'ctrsbox_linear', 'ctrsbox_geometry', 'trsbox_geometry']
     return D
+
+
+def extra_obligations(repo, D, pid):
+    """the tolerance and sweep cap that dykstra uses when a caller relies on its defaults (Model.xpt, Model.as_absolute_coordinates) are the documented ones:
+    the signature defaults equal the documented defaults of dykstra.max_iters / dykstra.d_tol (contracts/param_table.json)"""
+    import ast, json, os, z3
+    from pyvc.core import Ob
+    out = []
+    doc = json.load(open(os.path.join(os.path.dirname(os.path.abspath(__file__)), 'param_table.json'))).get('defaults', {})
+    fi = repo.func('dykstra')
+    cur = {}
+    if fi is not None:
+        a = fi.node.args
+        names = [x.arg for x in a.args]
+        for nm, dv in zip(names[len(names) - len(a.defaults):], a.defaults):
+            cur[nm] = dv
+    for nm, key in (('max_iter', 'dykstra.max_iters'), ('tol', 'dykstra.d_tol')):
+        ok = False
+        try:
+            ok = nm in cur and eval(ast.unparse(cur[nm]), {'__builtins__': {}}) == eval(doc[key], {'__builtins__': {}})
+        except Exception:
+            ok = False
+        out.append(Ob('dykstra/frame[default of %s is the documented default of %s]' % (nm, key), 'frame', 'dykstra', ['C15', 'C09'], [], z3.BoolVal(bool(ok)), fi.span[0] if fi else 0,
+                      'unsat', {'syntactic': True, 'why': 'now %s, documented %s' % (ast.unparse(cur[nm]) if nm in cur else None, doc.get(key))}))
+    return out
